@@ -2,7 +2,7 @@
 # usage: tools/mutcheck.sh <patch.diff> <ID> [<ID>...]   — apply a seeded change to /repo, run the quick checks, revert.
 # Prints one line per check: <ID> exit=<n> secs=<s>. Expected for a detected change: exit=1.
 set -u
-patch="$1"; shift
+patch="$(realpath "$1")"; shift
 cd /repo || exit 2
 if [ -n "$(git status --porcelain)" ]; then echo "repo not clean"; exit 2; fi
 git apply "$patch" || { echo "patch does not apply"; exit 2; }
